@@ -18,3 +18,32 @@ def test_parse():
     assert R1.conformant(b'[Trash Info]\nPath=/a%20b\nDeletionDate=2024-02-28T00:00:00\n') == []
     assert R1.conformant(b'[Trash Info]\nPath=/a b\nDeletionDate=2024-02-28T00:00:00\n') == []
     assert R1.conformant(b'[Trash Info]\nPath=/a\nb\nDeletionDate=2024-02-28T00:00:00\n')
+
+
+def test_glob_against_fnmatch():
+    """R4 must coincide with fnmatchcase (the documented semantics) on a wide token product"""
+    import fnmatch
+    import itertools
+    from ..ref import glob as R4
+    toks = ['a', 'A', 'b', '.', '*', '?', '[ab]', '[!a]', '[', ']', '!', '[a-b]', '/']
+    names = ['', 'a', 'A', 'b', 'ab', 'a.b', 'a*', '[ab]', '[', 'a/b', '/a', 'ba', 'aa', ']', '!']
+    n = 0
+    for k in (1, 2, 3):
+        for t in itertools.product(toks, repeat=k):
+            pat = ''.join(t)
+            for s in names:
+                assert R4.match(pat, s) == fnmatch.fnmatchcase(s, pat), (pat, s)
+                n += 1
+    assert n > 30000
+    assert R4.match('/home/*/a', '/home/u/w/a') and not R4.match('/home/*/a', '/home/u/w/a', star_slash=False)
+
+
+def test_indexes():
+    from ..ref import indexes as R5
+    assert R5.judge('0', 1) == ('valid', {0})
+    assert R5.judge('0-2,3', 4) == ('valid', {0, 1, 2, 3})
+    assert R5.judge('4', 4)[0] == 'invalid' and R5.judge('a', 4)[0] == 'invalid' and R5.judge('1-', 4)[0] == 'invalid'
+    assert R5.judge(' 1', 4) == ('dontcare', {1}) and R5.judge('+1', 4) == ('dontcare', {1})
+    assert R5.judge('3-1', 4) == ('reversed', set()) and R5.judge('', 4)[0] == 'empty'
+    assert R5.judge('1-2-3', 4)[0] == 'invalid' and R5.judge('0,,1', 4)[0] == 'invalid'
+    assert R5.judge('-1', 4)[0] == 'invalid'
